@@ -385,6 +385,18 @@ def slice_C01(ctx):
         tuples.append((d, fl, pat, inp, "", "altfollow"))
     for d, fl, pat, inp, _ in counted_nullable_stream(ctx, ctx.n(2000, 20000)):
         tuples.append((d, fl, pat, inp, "", "counted-nullable"))
+    # a quantifier binds to the single character (or escape) before it - also when that is an escape at
+    # the end of a literal run and the quantifier is the last character of the pattern (own generator state)
+    rng_e = random.Random(ctx.seed * 32452843 + 37)
+    for _ in range(ctx.n(400, 4000)):
+        lit = "".join(rng_e.choice("abx") for _ in range(rng_e.randint(1, 3)))
+        esc = rng_e.choice(["\\.", "\\-", "\\\\", "\\|", "\\*", "\\?", "\\(", "\\[", "\\n", "\\$"])
+        q = rng_e.choice(["*", "+", "?", "{2}", "*?", "{0,1}"])
+        tail = rng_e.choice(["", "", "", "c", "$"])
+        pat_ = lit + esc + q + tail
+        ch = {"\\n": "\n", "\\\\": "\\"}.get(esc, esc[-1])
+        for inp in ("b", "xyz", lit, lit + ch, lit + ch * 2, lit * 2 + ch, lit[:-1] + ch, lit + ch + lit + ch + "c", ""):
+            tuples.append(("xpath", "", pat_, inp, "", "escape-quantified"))
     # (b) seeded random structured patterns incl. back-references
     for d, fl, pat, inp, ast in random_stream(ctx, ctx.n(24000, 240000), shapes=0.3, per_pattern=5):
         tuples.append((d, fl, pat, inp, "", "random"))
@@ -433,6 +445,8 @@ def slice_C02(ctx):
         tuples.append((d, fl, pat, inp, "", "revisit"))
     for d, fl, pat, inp, _ in overlap_prefix_stream(ctx, ctx.n(2000, 20000)):
         tuples.append((d, fl, pat, inp, "", "overlap-prefix"))
+    for d, fl, pat, inp, _ in nullfirst_stream(ctx, ctx.n(2000, 20000)):
+        tuples.append((d, fl, pat, inp, "", "null-first"))
     # overlapping alternatives / greedy vs reluctant followed by optional terms
     hand = ["a|ab", "ab|a", "(?:a|ab)(?:c|bcd)", "a*?b?", "a+?b*", "(?:ab|a)(?:b|bc)?", "a{1,2}?a", "(?:a|b)*?b",
             "(?:aa|a)+", "(?:a|aa)+?b", ASTRAL + "|a", "[ab" + ASTRAL + "]+?" + ASTRAL, "a.b", "(?:.a|a.)"]
@@ -766,6 +780,18 @@ def arbitrary_stream(ctx):
     for p in pats:
         tuples.append((rng.choice(["xpath", "xpath", "xsd"]), rng.choice(flagpool), p, rng.choice(inputs),
                        rng.choice(repls)))
+    # minimum lengths that saturate (a count of usize::MAX, nested counts whose product overflows) next
+    # to what the search shortcuts read: a literal prefix of several characters, a leading class, a
+    # leading '^' - every arithmetic on lengths must saturate, not wrap (fixed flags, both dialects)
+    big = ["{18446744073709551615}", "{18446744073709551614,}", "{9223372036854775808}", "{4294967296}"]
+    for head in ["ab", "abc", "xyz", "[ab]c", "^ab", "a", "(ab)", "ab|cd"]:
+        for b in big:
+            for p in (head + "c" + b, head + "(?:z" + big[3] + ")" + big[3], head + "(?:cd)" + b + "e", "(?:" + head + ")" + b + "xy",
+                      head + "c" + b + "d" + b):
+                for d in ("xpath", "xsd"):
+                    if d == "xsd" and ("(?:" in p or "^" in p):
+                        continue
+                    tuples.append((d, "", p, rng.choice(["", "abccc", "ab", "xyzzz"]), "-"))
     return tuples
 
 
@@ -875,6 +901,41 @@ def counted_nullable_stream(ctx, count, repl=""):
     return out
 
 
+def nullfirst_stream(ctx, count, repl=""):
+    """an alternation whose EARLIER branch can match the empty string through a star / {0,n} over a
+    variable-length group, and whose later branch starts with the next input character: the earlier
+    branch wins (with the empty match) - x(?:(?:ab|c)*|d) on xd selects x, not xd; own generator state"""
+    rng = random.Random(ctx.seed * 86028157 + 41)
+    out = []
+    while len(out) < count:
+        x, a, b, c, d = rng.sample("abcdx", 5)
+        body = rng.choice(["%s%s|%s" % (a, b, c), "%s|%s%s" % (c, a, b), "%s%s?" % (a, b), "%s+%s" % (a, b)])
+        q = rng.choice(["*", "*", "{0,2}", "{0,3}", "*?"])
+        first = "(?:%s)%s" % (body, q)
+        later = rng.choice([d, d + a, "[%s%s]" % (d, x), "(%s)" % d])
+        grp = rng.choice(["(?:%s|%s)", "(%s|%s)"]) % (first, later)
+        pat = x + grp + rng.choice(["", "", d + "?"])
+        for inp in (x + d, x + d + d, x + a + b + d, x + c + d, "y" + x + d + x + a + b, x, x + a):
+            out.append(("xpath", rng.choice(["", "", "i"]), pat, inp, repl))
+    return out
+
+
+def reluctant_nullable_stream(ctx, count, repl=""):
+    """a reluctant (and, for comparison, greedy) star / {0,n} over a nullable, variable-length body - the
+    repeat the optimiser may only touch when it is greedy: x(?:a?)*? on xaa selects x; own generator state"""
+    rng = random.Random(ctx.seed * 86028157 + 43)
+    out = []
+    while len(out) < count:
+        x, a, b = rng.sample("abx;", 3)
+        body = rng.choice(["%s?" % a, "%s|" % a, "|%s" % a, "%s*%s?" % (a, b), "(?:%s|%s)?" % (a, b), " ?", "%s?%s?" % (a, b)])
+        q = rng.choice(["*?", "*?", "{0,3}?", "{0,}?", "*", "{0,2}"])
+        grp = rng.choice(["(?:%s)", "(%s)"]) % body
+        pat = rng.choice([x, x, "", x + x]) + grp + q + rng.choice(["", "", "", b, "$"])
+        for inp in (x + a * 2, x + a + b, a + x + a * 3, x, x + b + a, x + " " + a + x + a, ""):
+            out.append(("xpath", rng.choice(["", "", "i"]), pat, inp, repl))
+    return out
+
+
 def revisit_stream(ctx, count):
     """a bounded min-0 repeat over a variable-length body that is entered more than once at the same
     offset (an optional or repeated term before it gives the position back) and must backtrack
@@ -941,6 +1002,12 @@ def slice_C06(ctx):
         for inp in ("", "a", "ab", "aab", "b", "c", "ab\nab"):
             for fl in ("", "m"):
                 tuples.append(("xpath", fl, p, inp, "-"))
+    # a counted greedy repeat with a finite bound over a nullable, variable-length body, on an input of a
+    # few dozen characters on which the match fails: the number of ways to distribute empty and non-empty
+    # iterations is exponential, the engine's progress guard keeps the work small
+    for p in ["x(?:a?){0,40}b", "x(?:a|){1,30}b", "(?:a?b?){0,25}c", "x(a?){0,40}b", "x(?:a*){0,20}b"]:
+        for inp in ("x" + "a" * 36 + "-b", "x" + "a" * 28, "ab" * 14 + "-", "x" + "a" * 5 + "b"):
+            tuples.append(("xpath", "", p, inp, "-"))
     cases = mk_cases(tuples, "mrta")
     code, model, dis = run_slice(cases)
     violations, nontrivial = [], set()
@@ -1113,6 +1180,7 @@ def slice_C08(ctx):
     tuples += grammar_tree_stream(ctx, ctx.n(4000, 40000), "[$1]")
     tuples += overlap_prefix_stream(ctx, ctx.n(2000, 20000), "<$0>")
     tuples += altfollow_stream(ctx, ctx.n(2000, 20000), "<$0>")
+    tuples += reluctant_nullable_stream(ctx, ctx.n(2000, 20000), "<$0>")
     # shapes that trigger each shortcut
     # (pattern text, a text it matches)
     heads = [("ab", "ab"), ("a", "a"), ("[ab]", "b"), ("\\d", "1"), ("^", ""), ("^a", "a"), (".", "b"), ("(a)", "a"),
@@ -1290,7 +1358,9 @@ def slice_C10(ctx):
         pats.append(("xpath", "", e, "multi"))
         pats.append(("xsd", "", e, "multi"))
     for bad in ["\\p{Cs}", "\\p{X}", "\\p{Lx}", "\\p{l}", "\\p{LU}", "\\p{IsNoSuch}", "\\p{IsBasic Latin}", "\\p{Isbasiclatin}",
-                "\\p{Is}", "\\p{Greek}", "\\p{IsPrivate Use}", "\\p{L }"]:
+                "\\p{Is}", "\\p{Greek}", "\\p{IsPrivate Use}", "\\p{L }", "\\p{InGreek}", "\\P{InBasicLatin}", "[\\p{InCyrillic}]", "\\p{In}",
+                "\\p{isGreek}", "\\p{ISGreek}", "\\p{Is-Greek}", "\\p{IsGreek }", "\\p{ IsGreek}", "\\p{IsGreekX}", "\\p{BlockGreek}", "\\p{Is_Greek}",
+                "\\p{Lul}", "\\p{L&}", "\\p{Letter}", "\\p{IsL}", "\\p{IsLu}"]:
         pats.append(("xpath", "", bad, "unknown"))
     # every block of the shipped list, by its space-stripped name
     blocks = []
@@ -1420,6 +1490,17 @@ def slice_C11(ctx):
                 cases += [a, b]
                 escs.append((str(cid), str(cid + 1)))
                 cid += 2
+    # ... also where the escape is not the first term of the pattern (the search then reaches the
+    # class through the engine's CharClass operation, not through the first-character filter)
+    for e in ["\\p{Ll}", "\\P{Lu}", "\\p{Lu}", "\\p{IsBasicLatin}", "[\\p{L}-[\\p{Lu}]]", "\\w", "[^\\p{Ll}]"]:
+        for name, (lower, upper) in list(CLEAN.items())[:4]:
+            for ch in lower[:2] + upper[:2] + "1":
+                for (p_, i_) in (("x" + e, "x" + ch), ("^" + e + "+$", ch + ch), ("(?:y|x)" + e + "z", "x" + ch + "z"), (e + e, ch + ch)):
+                    a = Case(cid, "xpath", "", p_, i_, "", "m", tag="escape")
+                    b = Case(cid + 1, "xpath", "i", p_, i_, "", "m", tag="escape")
+                    cases += [a, b]
+                    escs.append((str(cid), str(cid + 1)))
+                    cid += 2
     code, model, dis = run_slice(cases)
     byid = {c.cid: c for c in cases}
     violations, nontrivial = [], set()
@@ -1494,6 +1575,12 @@ def slice_C12(ctx):
         for fl in ("", "m", "s", "ms"):
             for inp in (inputs if len(p) < 8 or not ctx.quick else rng.sample(inputs, 60 if "{" in p or len(p) > 12 else 120)):
                 tuples.append(("xpath", fl, p, inp, ""))
+    # the dot under the XSD dialect: flag s is read there as well (own generator state)
+    rng_x = random.Random(ctx.seed * 49979693 + 12)
+    for p in [".", "a.b", ".*", "<.*>", "a.+b", "[^a].", ".{2}", "a.?b", "(.)b", "a(?:.|x)b"]:
+        for fl in ("", "s", "ms", "si"):
+            for inp in rng_x.sample(inputs, 40) + ["a\nb", "a\rb", "<a\nb>", "\n", "a\n\nb"]:
+                tuples.append(("xsd", fl, p, inp, ""))
     cases = mk_cases(tuples, "ma")
     code, model, dis = run_slice(cases)
     spec = spec_match(cases)
@@ -2187,6 +2274,15 @@ def slice_C19(ctx):
                                               flagsets=["", "i"], alphabets=["ab", "aAb", "abc"], per_pattern=5, size=(2, 8), groups=0.3, brefs=0.35):
         if gen.has(ast, {"bref"}):
             tuples.append((d, fl, pat, inp, "<$1>"))
+    # a hundred groups and more: the number after the backslash is extended digit by digit as long as it
+    # names a group, so \\100 is group 100 there and group 10 followed by a literal 0 with fewer groups
+    for ng in (99, 100, 101, 105):
+        head = "(a)" * (ng - 1) + "(b)"
+        for ref, tail_in in (("\\100", "b"), ("\\100", "a0"), ("\\10", "a"), ("\\1000", "b0"), ("\\99", "a"), ("\\101", "b"), ("\\%d" % ng, "b")):
+            for anch in (("^", "$"), ("", "")):
+                pat_ = anch[0] + head + ref + anch[1]
+                tuples.append(("xpath", "", pat_, "a" * (ng - 1) + "b" + tail_in, "<$1>"))
+                tuples.append(("xpath", "", pat_, "a" * (ng - 1) + "b" + "a0", "<$1>"))
     # flag i compares a back-reference with its group case-blind - for every cased letter, not the
     # ASCII ones only (own generator state)
     rng_n = random.Random(ctx.seed * 32452867 + 19)
@@ -2431,6 +2527,29 @@ def slice_C20(ctx):
                 pairs.append((str(cid), str(cid + 1), law, False))
                 cid += 2
         laws["after a repeat"] += 1
+    # fifth stream (own generator state): r{0,m} / r{n,m} over a body with alternatives of different
+    # lengths against the expanded spelling r^n ((?:r)?)^(m-n), on inputs where the first repetitions
+    # must switch to another alternative and all m repetitions are needed
+    rng_b = random.Random(ctx.seed * 86028157 + 47)
+    for _ in range(ctx.n(400, 4000)):
+        a_, b_, c_ = rng_b.sample("abc", 3)
+        body = rng_b.choice(["%s|%s%s" % (a_, a_, b_), "%s%s|%s" % (a_, b_, a_), "%s|%s%s|%s" % (a_, a_, b_, b_), "%s%s?" % (a_, b_)])
+        n0 = rng_b.choice([0, 0, 1])
+        m0 = n0 + rng_b.choice([1, 2, 2, 3])
+        pre = rng_b.choice(["^", "", "x"])
+        post = rng_b.choice([c_, c_ + "$", ""])
+        counted = pre + "(?:%s){%d,%d}" % (body, n0, m0) + post
+        expanded = pre + ("(?:%s)" % body) * n0 + ("(?:%s)?" % body) * (m0 - n0) + post
+        units = [a_, a_ + b_, b_]
+        px = pre.replace("^", "")
+        for _i in range(6):
+            inp = px + "".join(rng_b.choice(units) for _ in range(rng_b.randint(max(1, m0 - 1), m0 + 1))) + rng_b.choice([c_, c_, ""])
+            a = Case(cid, "xpath", "", counted, inp, "<$0>", "mra", tag="r{n,m} expansion, alternatives of different lengths")
+            b = Case(cid + 1, "xpath", "", expanded, inp, "<$0>", "mra", tag="r{n,m} expansion, alternatives of different lengths")
+            cases += [a, b]
+            pairs.append((str(cid), str(cid + 1), "r{n,m} expansion, alternatives of different lengths", False))
+            cid += 2
+        laws["r{n,m} varlen"] += 1
     code, model, dis = run_slice(cases)
     spec = spec_match([c for c in cases])
     byid = {c.cid: c for c in cases}
